@@ -37,6 +37,8 @@ class ModuleInfo:
         desugar_cm_generators(self.tree, cm_gens)
         from .normalise import desugar_first_match
         self.first_match = desugar_first_match(self.tree)
+        from .normalise import expand_constant_kwargs
+        self.expanded_kwargs = expand_constant_kwargs(self.tree)
         short = name.split('.')[-1] if not relpath.endswith(
             '__init__.py') else name
         # N2 (inlining of helpers that are new w.r.t. the reference tree)
@@ -377,6 +379,42 @@ class Model:
                 if h is not None and h not in out:
                     out.append(h)
                     todo.append((h, d + 1))
+        return out
+
+    def helper_calls(self, clo, g):
+        """Call sites of helper g inside the functions of clo:
+        [(caller, call node, {parameter name: argument expression})]."""
+        out = []
+        params = g.params()
+        for h in clo:
+            for c in own_nodes(h.node):
+                if not isinstance(c, ast.Call):
+                    continue
+                fn = c.func
+                bound = False
+                if isinstance(fn, ast.Name) and fn.id == g.node.name and \
+                        g.cls is None:
+                    pass
+                elif isinstance(fn, ast.Attribute) and \
+                        fn.attr == g.node.name and g.cls is not None and \
+                        isinstance(fn.value, ast.Name) and \
+                        fn.value.id == 'self':
+                    bound = True
+                else:
+                    continue
+                ps = params[1:] if bound and params else params
+                m = {}
+                if any(isinstance(a, ast.Starred) for a in c.args):
+                    out.append((h, c, None))
+                    continue
+                for p_, a in zip(ps, c.args):
+                    m[p_] = a
+                for kw in c.keywords:
+                    if kw.arg is not None:
+                        m[kw.arg] = kw.value
+                if bound and params:
+                    m[params[0]] = fn.value
+                out.append((h, c, m))
         return out
 
     def closure_nodes(self, fi, depth=3):
